@@ -1042,6 +1042,11 @@ func (*zsFormatter) Process(ctx context.Context, e *el.Event) (*el.Event, error)
 	return e, nil
 }
 
+// reopenErrList is an error whose dynamic type is not comparable (like go/scanner.ErrorList).
+type reopenErrList []string
+
+func (e reopenErrList) Error() string { return strings.Join(e, "; ") }
+
 func runReopenConc(rc *RunCtx) {
 	tp := rc.Tape
 	sim := rc.Sim
@@ -1091,10 +1096,24 @@ func runReopenConc(rc *RunCtx) {
 		desc = append(desc, fmt.Sprintf("%s/p%d", typ, p))
 		defs = append(defs, el.Pipeline{PipelineID: el.PipelineID(fmt.Sprintf("p%d", p)), EventType: el.EventType(typ), NodeIDs: ids})
 	}
-	var failing *reopenNode
+	var failing, failing2 *reopenNode
 	if tp.Choose(3, "failnode") == 0 {
 		failing = listed[tp.Choose(len(listed), "which")]
 		failing.fail = fmt.Errorf("injected reopen error of %s", failing.label)
+		if tp.Choose(2, "second-failing-node") == 0 {
+			// several nodes fail in one call; their errors may be of one and the same NON-comparable dynamic
+			// type (an error list): errors are values to carry, not to compare with ==
+			failing2 = listed[tp.Choose(len(listed), "which2")]
+			if failing2 == failing {
+				failing2 = nil
+			} else if tp.Choose(2, "error-list-type") == 0 {
+				failing.fail = reopenErrList{"injected reopen error of " + failing.label}
+				failing2.fail = reopenErrList{"injected reopen error of " + failing2.label}
+			} else {
+				failing2.fail = fmt.Errorf("injected reopen error of %s", failing2.label)
+			}
+			simrt.Probe("reopen.two-failing-nodes")
+		}
 	}
 	nCallers := 2 + tp.Choose(2, "ncallers")
 	cancelled := tp.Choose(3, "ctx-cancelled") == 0
@@ -1178,7 +1197,7 @@ func runReopenConc(rc *RunCtx) {
 			// the failing node was certainly registered for the whole call
 			rc.Failf("C20.reopen-error", "swallowed-conc", "node %s fails in Reopen but Reopen call %d returned nil", failing.label, i)
 			return
-		} else if !errors.Is(c.err, failing.fail) && !strings.Contains(c.err.Error(), failing.fail.Error()) {
+		} else if !strings.Contains(c.err.Error(), failing.fail.Error()) && (failing2 == nil || !strings.Contains(c.err.Error(), failing2.fail.Error())) {
 			rc.Failf("C20.reopen-error", "not-carried-conc", "Reopen call %d returned %q which does not carry %q", i, c.err, failing.fail)
 		}
 	}
